@@ -61,13 +61,13 @@ type procResult struct {
 	injected  bool // the injected fault actually fired
 	delivered int  // bytes the faulted file had delivered before the injected read
 	eofSeen   bool // a read had already returned 0 (end of file) before the injected one
-	exit     int
-	signaled bool
-	stdout   string
-	stderr   string
-	ofile    string
-	ofileOK  bool // -o file exists
-	started  bool
+	exit      int
+	signaled  bool
+	stdout    string
+	stderr    string
+	ofile     string
+	ofileOK   bool // -o file exists
+	started   bool
 }
 
 var procCounter int64
@@ -650,11 +650,12 @@ func genProcCase(t *Tape, c01only bool) *ProcCase {
 
 func procWorkload(name string, count map[string]int, c01only bool) *Workload {
 	return &Workload{
-		Name:  name,
-		Count: func(tier string) int { return count[tier] },
-		Gen:   func(i int, t *Tape, tier string) any { return genProcCase(t, c01only) },
-		Run:   func(c any, keep bool) Outcome { return runProcCase(c.(*ProcCase), keep, c01only) },
-		New:   func() any { return &ProcCase{} },
+		Name:     name,
+		Count:    func(tier string) int { return count[tier] },
+		Gen:      func(i int, t *Tape, tier string) any { return genProcCase(t, c01only) },
+		Run:      func(c any, keep bool) Outcome { return runProcCase(c.(*ProcCase), keep, c01only) },
+		New:      func() any { return &ProcCase{} },
+		Simplify: simplifyProc,
 	}
 }
 
@@ -668,7 +669,7 @@ func registerProc() {
 	register(&Property{
 		ID:    "C14",
 		Level: "exploration",
-		Rule: "seeded command lines (-f / inline, stdin / one file / several files, 0-3 -r selectors, -o absent / - / FILE / existing FILE, --, environment variations) over seeded programs (trace, accumulator with document mutation, garbled, degenerate) and inputs, with filesystem fault states (missing / directory / /proc/self/mem inputs, missing -f file, -o into a missing directory / onto a directory / onto /dev/full, truncated files); the library on the same bytes is the oracle for stdout, JSON output and outcome; relations -f==inline, stdin==file, -r E==BEGINFILE{$=E} checked by a second invocation. Distinct = distinct (configuration shape, exit status); non-trivial = every executed case.",
+		Rule:  "seeded command lines (-f / inline, stdin / one file / several files, 0-3 -r selectors, -o absent / - / FILE / existing FILE, --, environment variations) over seeded programs (trace, accumulator with document mutation, garbled, degenerate) and inputs, with filesystem fault states (missing / directory / /proc/self/mem inputs, missing -f file, -o into a missing directory / onto a directory / onto /dev/full, truncated files); the library on the same bytes is the oracle for stdout, JSON output and outcome; relations -f==inline, stdin==file, -r E==BEGINFILE{$=E} checked by a second invocation. Distinct = distinct (configuration shape, exit status); non-trivial = every executed case.",
 		Assumptions: []string{
 			"the library (lang.EvalProgram + GetRootJson) is the oracle, as the property states",
 			"stdout is not asserted when an input file is missing, -f is missing, or -o is combined with several inputs (the statement only fixes status and diagnostic there)",
@@ -680,18 +681,17 @@ func registerProc() {
 		Workloads: []*Workload{
 			procWorkload("cli", map[string]int{"quick": 9000, "thorough": 600000}, false),
 			{
-				Name:      "cli-syscall-faults",
-				Count:     func(tier string) int { return map[string]int{"quick": 480, "thorough": 30000}[tier] },
-				Gen:       func(i int, t *Tape, tier string) any { return genSyscallFaultCase(t) },
-				Run:       func(c any, keep bool) Outcome { return runSyscallFaultCase(c.(*ProcCase), keep) },
-				New:       func() any { return &ProcCase{} },
-				NoRecheck: true,
+				Name:        "cli-syscall-faults",
+				Count:       func(tier string) int { return map[string]int{"quick": 480, "thorough": 30000}[tier] },
+				Gen:         func(i int, t *Tape, tier string) any { return genSyscallFaultCase(t) },
+				Run:         func(c any, keep bool) Outcome { return runSyscallFaultCase(c.(*ProcCase), keep) },
+				New:         func() any { return &ProcCase{} },
+				NoRecheck:   true,
 				ShrinkEvals: 150,
 			},
 		},
 	})
 }
-
 
 // prefixThenError delivers data and then fails like a read(2) error.
 type prefixThenError struct {
